@@ -140,6 +140,7 @@ type Out struct {
 	SetupOnly []string  `json:"setupOnly"`
 	Vars      []string  `json:"vars"`
 	CallSites []CallJ   `json:"callSites"`
+	MutexIDs  []string  `json:"mutexNames"` // index = id used in the Lean table
 }
 
 type CallJ struct {
@@ -213,6 +214,7 @@ type World struct {
 	atomArgs map[ast.Expr]bool // selector / ident expressions that are the operand of an atomic call
 	record   bool
 	retMemo  map[*FuncInfo][]ref
+	secMemo  map[*FuncInfo]map[string]int
 	retBusy  map[*FuncInfo]bool
 }
 
@@ -229,6 +231,7 @@ func main() {
 	}
 	w.run()
 	out := w.output()
+	lean := leanText(out)
 	if *jsonOut != "" {
 		b, _ := json.MarshalIndent(out, "", " ")
 		if err := os.WriteFile(*jsonOut, b, 0o644); err != nil {
@@ -237,7 +240,7 @@ func main() {
 		}
 	}
 	if *leanOut != "" {
-		if err := os.WriteFile(*leanOut, []byte(leanText(out)), 0o644); err != nil {
+		if err := os.WriteFile(*leanOut, []byte(lean), 0o644); err != nil {
 			fmt.Fprintln(os.Stderr, err)
 			os.Exit(2)
 		}
@@ -398,7 +401,7 @@ func (w *World) run() {
 	}
 	for iter := 0; iter < 12; iter++ {
 		w.rows, w.unknowns, w.edges = nil, nil, nil
-		w.retMemo, w.retBusy = map[*FuncInfo][]ref{}, map[*FuncInfo]bool{}
+		w.retMemo, w.retBusy, w.secMemo = map[*FuncInfo][]ref{}, map[*FuncInfo]bool{}, map[*FuncInfo]map[string]int{}
 		w.record = true
 		for _, p := range w.order {
 			for _, f := range sortedFuncs(p) {
@@ -654,10 +657,28 @@ func markValueUses(p *Pkg, e ast.Expr) {
 type state struct {
 	held  map[string]bool
 	alias map[types.Object]ref
+	sec   map[string]int // critical sections entered so far on this path: "mu|R" / "mu|W" (>= loopMark: inside a loop)
 	dead  bool
 }
 
-func newState() *state { return &state{held: map[string]bool{}, alias: map[types.Object]ref{}} }
+const loopMark = 100
+
+func newState() *state {
+	return &state{held: map[string]bool{}, alias: map[types.Object]ref{}, sec: map[string]int{}}
+}
+
+func maxSec(a, b map[string]int) map[string]int {
+	r := map[string]int{}
+	for k, v := range a {
+		r[k] = v
+	}
+	for k, v := range b {
+		if v > r[k] {
+			r[k] = v
+		}
+	}
+	return r
+}
 
 func (s *state) clone() *state {
 	n := newState()
@@ -666,6 +687,9 @@ func (s *state) clone() *state {
 	}
 	for k, v := range s.alias {
 		n.alias[k] = v
+	}
+	for k, v := range s.sec {
+		n.sec[k] = v
 	}
 	n.dead = s.dead
 	return n
@@ -689,6 +713,11 @@ func (s *state) join(bs ...*state) {
 	}
 	s.held = h
 	s.dead = false
+	sec := map[string]int{}
+	for _, b := range liveBs {
+		sec = maxSec(sec, b.sec)
+	}
+	s.sec = sec
 	al := map[types.Object]ref{}
 	for _, b := range liveBs {
 		for k, v := range b.alias {
@@ -710,7 +739,21 @@ type an struct {
 	depth  int
 	loop   int
 	rets   [][]ref
+	exits  map[string]int // max section counts over the return points seen so far
 	via    string
+}
+
+func (a *an) addSec(st *state, key string, n int) {
+	if a.loop > 0 {
+		n += loopMark
+	}
+	st.sec[key] += n
+}
+
+func (a *an) noteExit(st *state) {
+	if !st.dead {
+		a.exits = maxSec(a.exits, st.sec)
+	}
 }
 
 func (a *an) phase() string { return a.fn.phase }
@@ -1087,6 +1130,11 @@ func (a *an) acquire(st *state, mu string, wmode bool, pos token.Pos) {
 		a.fn.direct = append(a.fn.direct, acq{mu: mu, w: wmode, inLoop: a.loop > 0, pos: a.w.pos(pos)})
 	}
 	st.held[mu] = wmode
+	if wmode {
+		a.addSec(st, mu+"|W", 1)
+	} else {
+		a.addSec(st, mu+"|R", 1)
+	}
 }
 
 func (a *an) release(st *state, mu string, pos token.Pos) {
@@ -1234,6 +1282,11 @@ func (a *an) call(st *state, ce *ast.CallExpr, deferred bool) []ref {
 		}
 		a.fn.calls = append(a.fn.calls, callSite{callee: callee.key, held: h, inLoop: a.loop > 0, pos: a.w.pos(ce.Pos())})
 	}
+	if callee != nil && !deferred {
+		for k, v := range a.w.secSummary(callee) {
+			a.addSec(st, k, v)
+		}
+	}
 	if callee != nil && callee.pkg == a.p {
 		if anyRef {
 			return a.inlineCall(st, callee, recv, args, ce)
@@ -1326,7 +1379,14 @@ func (w *World) retRefs(f *FuncInfo) []ref {
 	r := mergeRets(a.rets)
 	w.retBusy[f] = false
 	w.retMemo[f] = r
+	w.secMemo[f] = a.exits
 	return r
+}
+
+// secSummary: how many critical sections a call of f enters at most (over its paths, callees included)
+func (w *World) secSummary(f *FuncInfo) map[string]int {
+	w.retRefs(f)
+	return w.secMemo[f]
 }
 
 func mergeRets(rets [][]ref) []ref {
@@ -1398,6 +1458,7 @@ func (a *an) inlineCall(st *state, callee *FuncInfo, recv ref, args []ref, ce *a
 
 func (a *an) funcBody(fd *ast.FuncDecl, st *state) {
 	a.block(st, fd.Body.List)
+	a.noteExit(st)
 }
 
 func (a *an) block(st *state, list []ast.Stmt) {
@@ -1604,6 +1665,7 @@ func (a *an) stmt(st *state, s ast.Stmt) {
 			}
 		}
 		a.rets = append(a.rets, rs)
+		a.noteExit(st)
 		st.dead = true
 	case *ast.BlockStmt:
 		a.block(st, x.List)
@@ -1842,43 +1904,14 @@ func (w *World) callEdges() {
 	}
 }
 
-type secCount struct {
-	n      int
-	inLoop bool
-}
-
+// shapes: per slot phase the read sections, per rule-update function the write sections, of each package-level
+// RW mutex of the package — maximum over the paths of one call, callees included.
 func (w *World) shapes() []Shape {
-	fs := w.allFuncs()
-	var count func(k string, mu string, seen map[string]bool) secCount
-	count = func(k string, mu string, seen map[string]bool) secCount {
-		f := fs[k]
-		if f == nil || seen[k] {
-			return secCount{}
-		}
-		seen[k] = true
-		defer delete(seen, k)
-		var r secCount
-		for _, d := range f.direct {
-			if d.mu == mu && !d.w {
-				r.n++
-				r.inLoop = r.inLoop || d.inLoop
-			}
-		}
-		for _, c := range f.calls {
-			s := count(c.callee, mu, seen)
-			r.n += s.n
-			if s.n > 0 && (c.inLoop || s.inLoop) {
-				r.inLoop = true
-			}
-		}
-		return r
-	}
 	var out []Shape
 	for _, p := range w.order {
 		if !p.track {
 			continue
 		}
-		// package-level RW mutexes of this package
 		var mus []string
 		sc := p.tpkg.Scope()
 		for _, n := range sc.Names() {
@@ -1893,15 +1926,22 @@ func (w *World) shapes() []Shape {
 			}
 		}
 		for _, f := range sortedFuncs(p) {
-			if f.decl.Recv == nil || !slotPhases[f.name] {
+			mode := ""
+			if f.decl.Recv != nil && slotPhases[f.name] {
+				mode = "|R"
+			} else if f.decl.Recv == nil && ast.IsExported(f.name) && (strings.HasPrefix(f.name, "Load") || strings.HasPrefix(f.name, "Clear")) {
+				mode = "|W"
+			}
+			if mode == "" {
 				continue
 			}
+			sum := w.secSummary(f)
 			for _, mu := range mus {
-				s := count(f.key, mu, map[string]bool{})
-				if s.n == 0 {
+				n := sum[mu+mode]
+				if n == 0 {
 					continue
 				}
-				out = append(out, Shape{Slot: f.key, Mu: mu, Sections: s.n, InLoop: s.inLoop})
+				out = append(out, Shape{Slot: f.key, Mu: mu, Sections: n % loopMark, InLoop: n >= loopMark})
 			}
 		}
 	}
@@ -2220,6 +2260,7 @@ func leanText(o *Out) string {
 	for _, s := range o.Shapes {
 		mu(s.Mu)
 	}
+	defer func() { o.MutexIDs = muNames }()
 	b.WriteString("def classNames : List (Nat × String) := [\n")
 	for i, n := range clsNames {
 		fmt.Fprintf(&b, "  (%d, %s)%s\n", i, lstr(n), comma(i, len(clsNames)))
